@@ -63,9 +63,12 @@ fn has_link_loop(dir: &Path, above: &mut Vec<(u64, u64)>) -> bool {
         return true;
     }
     above.push(id);
-    let found = dir.read_dir()
-        .map(|entries| entries.flatten().any(|e| has_link_loop(&e.path(), above)))
-        .unwrap_or(false);
+    // (The listing is closed before going down: one open directory,
+    // whatever the depth.)
+    let entries: Vec<PathBuf> = dir.read_dir()
+        .map(|entries| entries.flatten().map(|e| e.path()).collect())
+        .unwrap_or_default();
+    let found = entries.iter().any(|e| has_link_loop(e, above));
     above.pop();
     found
 }
